@@ -48,9 +48,6 @@ Proof. intros [-> | ->]; unfold hc; apply aint_aset_other; destruct i as [|[|i]]
 Lemma stats_of_hc ap fmt h recs : stats_of ap fmt (hc h) recs = stats_of ap fmt h recs.
 Proof. apply stats_of_ext; intros i; apply hc_axis; auto. Qed.
 
-Definition layout_field (n : string) : bool :=
-  derived n || String.eqb "point_format_id" n || String.eqb "start_of_first_evlr" n.
-
 Lemma hdr_agree h vls vlz h0s b0s h0z b0z S (ev : bool) es ez k hRs bRs hRz bRz n :
   wfst S ->
   enc_header (with_stats h stats0) vls false = Ok (h0s, b0s) ->
@@ -62,6 +59,7 @@ Lemma hdr_agree h vls vlz h0s b0s h0z b0z S (ev : bool) es ez k hRs bRs hRz bRz 
 Proof.
   intros WS E0s E0z ERs ERz Hn.
   unfold layout_field in Hn. apply orb_false_iff in Hn as [Hn Hstart]. apply orb_false_iff in Hn as [Hder Hfid].
+  change (derived n = false) in Hder.
   assert (wfst (if ev then set_ev S es k else S)) as Ws by (destruct ev; exact WS).
   assert (wfst (if ev then set_ev S ez k else S)) as Wz by (destruct ev; exact WS).
   rewrite (rb_wvalR _ _ _ _ _ _ _ E0z Wz ERz), (rb_wvalR _ _ _ _ _ _ _ E0s Ws ERs).
@@ -189,67 +187,54 @@ Qed.
 Section Contract.
   Variable ap : Z -> Z -> Z -> Z.
   Hypothesis Hap : ap_ok ap.
-  Variable lzdata : Z -> Z -> list Z.
-  Variable cst : Type.
-  Variable c_new : list Z -> cst.
-  Variable c_feed : cst -> list (list Z) -> cst.
-  Variable c_done : cst -> list Z.
-  Variable a_open : bool -> list Z -> list Z -> result cst.
-  Variable dst : Type.
-  Variable d_open : bool -> bool -> list Z -> list Z -> result dst.
-  Variable d_read : dst -> Z -> result (dst * list (list Z)).
-  Variable d_seek : dst -> Z -> result dst.
-  Variable d_rest : dst -> result (list Z).
-  (* record length of a LasZip record *)
+  Variable B : backend.
+  Notation lzdata := (b_lzdata B).
+  Notation cst := (b_cst B).
+  Notation c_new := (b_new B).
+  Notation c_feed := (b_feed B).
+  Notation c_done := (b_done B).
+  Notation a_open := (b_aopen B).
+  Notation dst := (b_dst B).
+  Notation d_open := (b_dopen B).
+  Notation d_read := (b_read B).
+  Notation d_seek := (b_seek B).
+  Notation d_rest := (b_rest B).
+  (* the witnesses of `conforming B` (Model/Laz.v), and its clauses *)
   Variable isz : list Z -> Z.
-  (* "decompressor s, opened (seekable?) on the stream of `recs` for record `d` followed by `tail`, stands at record c" *)
   Variable dpos : bool -> list Z -> list (list Z) -> list Z -> dst -> Z -> Prop.
 
-  Notation enc := (Laz.enc cst c_new c_feed c_done).
-  Notation lzd := (Laz.lzd lzdata).
+  Notation enc := (B_enc B).
+  Notation lzd := (B_lzd B).
 
-  (* the record created for (format, extra bytes) describes records of that length *)
   Hypothesis H_isz : forall fmt n std, std_size fmt = Some std -> 0 <= n -> isz (lzdata fmt n) = std + n.
-  (* feeding chunk by chunk = feeding at once (done() included; the destination ends where the stream ends) *)
   Hypothesis H_feed : forall d chunks, recs_ok (isz d) (concat chunks) = true -> Forall (fun c => c <> []) chunks ->
     c_done (fold_left c_feed chunks (c_new d)) = enc d (concat chunks).
-  (* a decompressor that constructs on a finished stream stands at record 0 of it, whatever follows the stream *)
   Hypothesis H_open_sound : forall p sk d recs tail s, recs_ok (isz d) recs = true ->
     d_open p sk d (enc d recs ++ tail) = Ok s -> dpos sk d recs tail s 0.
-  (* the serial variant always constructs; the parallel one at least on seekable sources *)
   Hypothesis H_open_serial : forall sk d recs tail, recs_ok (isz d) recs = true ->
     is_ok (d_open false sk d (enc d recs ++ tail)) = true.
   Hypothesis H_open_parallel : forall d recs tail, recs_ok (isz d) recs = true ->
     is_ok (d_open true true d (enc d recs ++ tail)) = true.
-  (* dec n (enc rs) = rs, from any position, in any number of calls *)
   Hypothesis H_read : forall sk d recs tail s c n, dpos sk d recs tail s c -> 0 <= n -> c + n <= len recs ->
     exists s', d_read s n = Ok (s', firstn (Z.to_nat n) (skipn (Z.to_nat c) recs)) /\ dpos sk d recs tail s' (c + n).
-  (* seek i, then read, yields skipn i *)
   Hypothesis H_seek : forall sk d recs tail s c i, dpos sk d recs tail s c -> 0 <= i <= len recs ->
     exists s', d_seek s i = Ok s' /\ dpos sk d recs tail s' i.
-  (* non-seekable source, all points consumed: the chunk table can be skipped and the rest of the source obtained *)
   Hypothesis H_rest : forall d recs tail s, dpos false d recs tail s (len recs) -> d_rest s = Ok tail.
-  (* the appender continues a finished stream *)
   Hypothesis H_append : forall p d A tail, recs_ok (isz d) A = true ->
     exists s, a_open p d (enc d A ++ tail) = Ok s
       /\ forall Bs, recs_ok (isz d) (concat Bs) = true -> Forall (fun c => c <> []) Bs ->
            c_done (fold_left c_feed Bs s) = enc d (A ++ concat Bs).
 
-  Notation laz_file_of := (Laz.laz_file_of ap lzdata cst c_new c_feed c_done).
-  Notation laz_final_hdr := (Laz.laz_final_hdr ap lzdata cst c_new c_feed c_done).
-  Notation lz_session := (Laz.lz_session ap lzdata cst c_new c_feed c_done).
+  Notation laz_file_of := (B_file_of ap B).
+  Notation laz_final_hdr := (B_final_hdr ap B).
+  Notation lz_session := (B_session ap B).
   Notation select := (Laz.select dst d_open).
-  Notation laz_source := (Laz.laz_source dst d_open).
-  Notation read_laz := (Laz.read_laz dst d_open d_read).
-  Notation read_laz_ns := (Laz.read_laz_ns dst d_open d_read d_rest).
-  Notation laz_pstep := (Laz.laz_pstep dst d_read d_seek).
-  Notation lz_arun := (Laz.lz_arun ap cst c_feed c_done a_open).
-
-  (* what is asked of the data, on top of wf_las (which speaks about the uncompressed file of the same data) *)
-  Definition wf_laz (h : assoc) (vl : list vlr) (fmt : Z) (recs : list (list Z)) (evl : list vlr) : Prop :=
-    exists h', laz_final_hdr h vl fmt recs evl = Ok h'
-      /\ wf_header h' (writer_vlrs vl true (lzd h fmt)) = true
-      /\ count_lz vl = 0 /\ aint h "point_format_id" = fmt /\ 0 <= fmt < 64.
+  Notation laz_source := (B_source B).
+  Notation read_laz := (B_read B).
+  Notation read_laz_ns := (B_read_ns B).
+  Notation laz_pstep := (B_pstep B).
+  Notation lz_arun := (B_append ap B).
+  Notation wf_laz := (Laz.wf_laz ap B).
 
   (* ---------------------------------------------------------------------------------- *)
   (* writing in chunks = writing at once                                                 *)
@@ -257,11 +242,15 @@ Section Contract.
   Theorem lz_session_equiv : forall h vl fmt chunks evl,
     compat (aint h "version.major") (aint h "version.minor") fmt = true ->
     (evl = [] \/ aint h "version.minor" >= 4) ->
-    recs_ok (isz (lzd h fmt)) (concat chunks) = true ->
+    forall std, std_size fmt = Some std -> std <= aint h "point_size" ->
+    recs_ok (aint h "point_size") (concat chunks) = true ->
     lz_session h vl fmt chunks evl = laz_file_of h vl fmt (concat chunks) evl.
-  Proof.
-    intros h vl fmt chunks evl Hcompat Hev Hok.
-    unfold Laz.lz_session, Laz.laz_file_of, gfile. rewrite Hcompat. cbn [negb].
+  Proof using Hap H_isz H_feed H_open_sound H_open_serial H_open_parallel H_read H_seek H_rest H_append.
+    intros h vl fmt chunks evl Hcompat Hev std Hstd Hle Hok0.
+    assert (recs_ok (isz (lzd h fmt)) (concat chunks) = true) as Hok.
+    { unfold B_lzd, Laz.lzd. rewrite Hstd, (H_isz fmt _ std Hstd) by lia.
+      now replace (std + (aint h "point_size" - std)) with (aint h "point_size") by lia. }
+    unfold B_session, B_file_of, Laz.lz_session, Laz.laz_file_of, gfile. fold (B_lzd B h fmt). fold (B_enc B). rewrite Hcompat. cbn [negb].
     replace (nonempty evl && (aint h "version.minor" <? 4)) with false
       by (destruct Hev as [-> | Hev]; [reflexivity|destruct evl; cbn [nonempty andb]; lia]).
     destruct (enc_header (with_stats (hc h) stats0) (writer_vlrs vl true (lzd h fmt)) false) as [[h0 b0]|e] eqn:E0;
@@ -301,11 +290,6 @@ Section Contract.
       exists p', s. split; [now right|]. split; assumption.
   Qed.
 
-  (* which selections can serve a source: any non-empty one when it is seekable, one that holds the serial
-     variant when it is not (the parallel one may refuse: the loop then falls back) *)
-  Definition backends_ok (backends : list bool) (seekable : bool) : Prop :=
-    if seekable then backends <> [] else In false backends.
-
   Lemma source_ok : forall backends sk rh src d recs tail,
     backends_ok backends sk ->
     find is_laszip (rh_vlrs rh) = Some (mk_laszip d) ->
@@ -321,7 +305,7 @@ Section Contract.
       - exists false. split; [exact Hb|now apply H_open_serial]. }
     destruct (select_ok backends sk d _ EOther Hex) as (p & s & _ & Hop & Hsel).
     exists s. split; [|exact (H_open_sound p sk d recs tail s Hok Hop)].
-    unfold Laz.laz_source. rewrite Hfind. cbn [v_data mk_laszip]. rewrite Hsk.
+    unfold B_source, Laz.laz_source. rewrite Hfind. cbn [v_data mk_laszip]. rewrite Hsk.
     destruct backends; [destruct Hex as (? & [] & _)|exact Hsel].
   Qed.
 
@@ -340,7 +324,7 @@ Section Contract.
         by (cbn; tauto); reflexivity. }
     destruct (wf_header_std _ _ Hwfs) as (std & Hstd & Hle). rewrite Epid, Hfmt in Hstd. rewrite Eps in *.
     split; [|split; [exact Hrok|split; [exact Hps|]]].
-    - unfold Laz.lzd. rewrite Hstd. rewrite (H_isz fmt _ std Hstd) by lia. lia.
+    - unfold B_lzd, Laz.lzd. rewrite Hstd. rewrite (H_isz fmt _ std Hstd) by lia. lia.
     - rewrite writer_vlrs_eq. now rewrite remove_first_none.
   Qed.
 
@@ -375,10 +359,10 @@ Section Contract.
 
   Lemma laz_file_of_unfold h vl fmt recs evl :
     laz_file_of h vl fmt recs evl = gfile ap (hc h) (writer_vlrs vl true (lzd h fmt)) fmt recs evl (enc (lzd h fmt) recs).
-  Proof. unfold Laz.laz_file_of. reflexivity. Qed.
+  Proof. unfold B_file_of, Laz.laz_file_of. reflexivity. Qed.
   Lemma laz_final_hdr_unfold h vl fmt recs evl :
     laz_final_hdr h vl fmt recs evl = gfinal_hdr ap (hc h) (writer_vlrs vl true (lzd h fmt)) fmt recs evl (enc (lzd h fmt) recs).
-  Proof. unfold Laz.laz_final_hdr. reflexivity. Qed.
+  Proof. unfold B_final_hdr, Laz.laz_final_hdr. reflexivity. Qed.
 
   (* the header of the compressed file, as any of the readers decodes it; junk may follow the file *)
   Lemma laz_header_back : forall h vl fmt recs evl g junk, wf_las ap h vl fmt recs evl -> wf_laz h vl fmt recs evl ->
@@ -423,7 +407,7 @@ Section Contract.
     split; [rewrite Hge, Zoff, !len_app; lia|].
     split; [exact Zcomp|]. split; [exact Zfmt|]. split; [exact Zps|]. split; [exact Zev|]. split; [exact Zcnt|].
     split; [exact Zmn|]. split; [exact Zm|]. split; [exact Zev0|].
-    split; [intros Hne; destruct (Zev1 Hne) as [A B]; split; [exact A|rewrite B, Zoff; reflexivity]|exact Zget].
+    split; [intros Hne; destruct (Zev1 Hne) as [A A2]; split; [exact A|rewrite A2, Zoff; reflexivity]|exact Zget].
   Qed.
 
   Lemma nil_of_len (recs : list (list Z)) : (len recs <=? 0) = true -> recs = [].
@@ -445,7 +429,7 @@ Section Contract.
       as (rz & hz & eb & Dz & _ & Hfz & _ & Hfind & Hstrip & Hsk & _ & Zcomp & Zfmt & Zps & Zev & Zcnt & Zmn & _ & _ & _ & Zget).
     assert (exists lg, read_laz backends (g ++ junk) = Ok lg /\ lz_points lg = recs
                        /\ lz_h lg = with_vlrs rz vl (rh_evlrs rz)) as (lg & Rg & Rgp & Rgh).
-    { unfold Laz.read_laz. rewrite Dz. cbn [bind]. rewrite Zcnt, Zcomp.
+    { unfold B_read, Laz.read_laz. fold (B_source B). rewrite Dz. cbn [bind]. rewrite Zcnt, Zcomp.
       destruct (len recs <=? 0) eqn:Ez.
       - rewrite (nil_of_len _ Ez) in *.
         eexists. split; [reflexivity|]. cbn [lz_points lz_h]. split; [reflexivity|].
@@ -475,7 +459,7 @@ Section Contract.
       /\ rh_compressed (lz_h lg) = true /\ rh_compressed (lf_h lf) = false
       /\ (forall n, In n (header_field_names (aint h "version.minor")) -> layout_field n = false ->
             aget (rh_fields (lz_h lg)) n = aget (rh_fields (lf_h lf)) n).
-  Proof.
+  Proof using Hap H_isz H_feed H_open_sound H_open_serial H_open_parallel H_read H_seek H_rest H_append.
     intros h vl fmt recs evl f g backends junk Wl Wz Hf Hg Hb.
     destruct (las_read_back h vl fmt recs evl f Wl Hf) as (lf & hs & Rf & Hfs & Sp & Sv & Sev & Sps & Sfmt & Scomp & Sget).
     destruct (laz_read_back h vl fmt recs evl g junk backends Wl Wz Hg Hb)
@@ -507,10 +491,10 @@ Section Contract.
     rewrite !prun_cons. destruct op as [n|i]; cbn [ops_ok] in Hok.
     - apply andb_true_iff in Hok as [Hok Hr]. apply andb_true_iff in Hok as [Hn Hcn].
       destruct (H_read _ _ _ _ _ _ n Hpos ltac:(lia) ltac:(lia)) as (s' & Hrd & Hpos').
-      cbn [Laz.laz_pstep spec_pstep]. rewrite Hrd. cbn [fst snd]. f_equal. apply IH; [exact Hpos'|lia|exact Hr].
+      unfold B_pstep; cbn [Laz.laz_pstep spec_pstep]. rewrite Hrd. cbn [fst snd]. f_equal. apply IH; [exact Hpos'|lia|exact Hr].
     - apply andb_true_iff in Hok as [Hok Hr]. apply andb_true_iff in Hok as [Hi0 Hi1].
       destruct (H_seek _ _ _ _ _ _ i Hpos ltac:(lia)) as (s' & Hsk & Hpos').
-      cbn [Laz.laz_pstep spec_pstep]. rewrite Hsk. cbn [fst snd]. f_equal. apply IH; [exact Hpos'|lia|exact Hr].
+      unfold B_pstep; cbn [Laz.laz_pstep spec_pstep]. rewrite Hsk. cbn [fst snd]. f_equal. apply IH; [exact Hpos'|lia|exact Hr].
   Qed.
 
   Lemma las_cursor_gen : forall bs recs tail ps ops c, 0 < ps -> recs_ok ps recs = true -> 0 <= c ->
@@ -536,7 +520,7 @@ Section Contract.
       /\ forall ops, ops_ok (len recs) 0 ops = true ->
            snd (prun laz_pstep s0 ops) = snd (prun (las_pstep f (rh_offset rs) (rh_psize rs)) 0 ops)
            /\ snd (prun laz_pstep s0 ops) = snd (prun (spec_pstep recs) 0 ops).
-  Proof.
+  Proof using Hap H_isz H_feed H_open_sound H_open_serial H_open_parallel H_read H_seek H_rest H_append.
     intros h vl fmt recs evl f g backends junk Wl Wz Hf Hg Hb.
     destruct (wf_facts _ _ _ _ _ Wl Wz) as (Hisz & Hrok & Hps & Hvlz).
     destruct (laz_header_back h vl fmt recs evl g junk Wl Wz Hg)
@@ -566,7 +550,7 @@ Section Contract.
     exists lg, read_laz_ns backends (g ++ junk) = Ok lg
       /\ lz_points lg = recs /\ rh_vlrs (lz_h lg) = vl
       /\ rh_evlrs (lz_h lg) = (if aint h "version.minor" >=? 4 then Some evl else None).
-  Proof.
+  Proof using Hap H_isz H_feed H_open_sound H_open_serial H_open_parallel H_read H_seek H_rest H_append.
     intros h vl fmt recs evl g backends junk Wl Wz Hg Hb.
     destruct (wf_facts _ _ _ _ _ Wl Wz) as (Hisz & Hrok & Hps & Hvlz).
     destruct (laz_header_back h vl fmt recs evl g junk Wl Wz Hg)
@@ -602,7 +586,7 @@ Section Contract.
     assert ((if len recs <=? 0 then (if len recs <=? 0 then vl else rh_vlrs rz)
              else remove_first is_laszip (if len recs <=? 0 then vl else rh_vlrs rz)) = vl) as Hheld
       by (destruct (len recs <=? 0); [reflexivity|exact Hstrip]).
-    unfold Laz.read_laz_ns. rewrite Dz0. cbn [bind with_vlrs rh_fields rh_vlrs rh_compressed rh_offset rh_psize].
+    unfold B_read_ns, Laz.read_laz_ns. fold (B_source B). rewrite Dz0. cbn [bind with_vlrs rh_fields rh_vlrs rh_compressed rh_offset rh_psize].
     rewrite Zcnt, Zcomp, Hminor, Hopen.
     destruct (m >=? 4) eqn:E4.
     - rewrite (Hnev eq_refl). cbn [andb].
@@ -630,3 +614,48 @@ Section Contract.
         unfold reader_touch_vlrs. replace (len recs >? 0) with true by lia. exact Hstrip.
   Qed.
 End Contract.
+
+(* ------------------------------------------------------------------------------------ *)
+(* the same theorems, for every backend that honours the contract                        *)
+(* ------------------------------------------------------------------------------------ *)
+Ltac use_contract HB := destruct HB as (isz0 & dpos0 & C1 & C2 & C3 & C4 & C5 & C6 & C7 & C8 & C9).
+
+Theorem conf_session_equiv : forall ap, ap_ok ap -> forall B, conforming B -> forall h vl fmt chunks evl,
+  compat (aint h "version.major") (aint h "version.minor") fmt = true ->
+  (evl = [] \/ aint h "version.minor" >= 4) ->
+  forall std, std_size fmt = Some std -> std <= aint h "point_size" ->
+  recs_ok (aint h "point_size") (concat chunks) = true ->
+  B_session ap B h vl fmt chunks evl = B_file_of ap B h vl fmt (concat chunks) evl.
+Proof. intros ap Hap B HB. use_contract HB. exact (lz_session_equiv ap Hap B isz0 dpos0 C1 C2 C3 C4 C5 C6 C7 C8 C9). Qed.
+
+Theorem conf_transparent_whole : forall ap, ap_ok ap -> forall B, conforming B -> forall h vl fmt recs evl f g backends junk,
+  wf_las ap h vl fmt recs evl -> wf_laz ap B h vl fmt recs evl ->
+  file_of ap h vl fmt recs evl = Ok f -> B_file_of ap B h vl fmt recs evl = Ok g ->
+  backends <> [] ->
+  exists lf lg, read_file f = Ok lf /\ B_read B backends (g ++ junk) = Ok lg
+    /\ lz_points lg = recs /\ lf_points lf = recs
+    /\ rh_vlrs (lz_h lg) = vl /\ rh_vlrs (lf_h lf) = vl
+    /\ rh_evlrs (lz_h lg) = rh_evlrs (lf_h lf)
+    /\ rh_psize (lz_h lg) = rh_psize (lf_h lf) /\ rh_fmt (lz_h lg) = rh_fmt (lf_h lf)
+    /\ rh_compressed (lz_h lg) = true /\ rh_compressed (lf_h lf) = false
+    /\ (forall n, In n (header_field_names (aint h "version.minor")) -> layout_field n = false ->
+          aget (rh_fields (lz_h lg)) n = aget (rh_fields (lf_h lf)) n).
+Proof. intros ap Hap B HB. use_contract HB. exact (laz_transparent_whole ap Hap B isz0 dpos0 C1 C2 C3 C4 C5 C6 C7 C8 C9). Qed.
+
+Theorem conf_transparent_cursor : forall ap, ap_ok ap -> forall B, conforming B -> forall h vl fmt recs evl f g backends junk,
+  wf_las ap h vl fmt recs evl -> wf_laz ap B h vl fmt recs evl ->
+  file_of ap h vl fmt recs evl = Ok f -> B_file_of ap B h vl fmt recs evl = Ok g -> backends <> [] ->
+  exists rs rz s0, dec_header f true = Ok rs /\ dec_header (g ++ junk) true = Ok rz
+    /\ B_source B backends true rz (g ++ junk) = Ok s0
+    /\ forall ops, ops_ok (len recs) 0 ops = true ->
+         snd (prun (B_pstep B) s0 ops) = snd (prun (las_pstep f (rh_offset rs) (rh_psize rs)) 0 ops)
+         /\ snd (prun (B_pstep B) s0 ops) = snd (prun (spec_pstep recs) 0 ops).
+Proof. intros ap Hap B HB. use_contract HB. exact (laz_transparent_cursor ap Hap B isz0 dpos0 C1 C2 C3 C4 C5 C6 C7 C8 C9). Qed.
+
+Theorem conf_transparent_nonseekable : forall ap, ap_ok ap -> forall B, conforming B -> forall h vl fmt recs evl g backends junk,
+  wf_las ap h vl fmt recs evl -> wf_laz ap B h vl fmt recs evl ->
+  B_file_of ap B h vl fmt recs evl = Ok g -> In false backends ->
+  exists lg, B_read_ns B backends (g ++ junk) = Ok lg
+    /\ lz_points lg = recs /\ rh_vlrs (lz_h lg) = vl
+    /\ rh_evlrs (lz_h lg) = (if aint h "version.minor" >=? 4 then Some evl else None).
+Proof. intros ap Hap B HB. use_contract HB. exact (laz_transparent_nonseekable ap Hap B isz0 dpos0 C1 C2 C3 C4 C5 C6 C7 C8 C9). Qed.
